@@ -686,13 +686,14 @@ def install(I, mkcls, meth):
                 best, bj = x, j
         return bj
 
+    reg("fromiter")(lambda i, a, k: mk(list(i.iterate(a[0])), norm_dtype(k.get("dtype", a[1] if len(a) > 1 else None))))
     reg("any")(lambda i, a, k: METHODS["any"](i, asarray(i, a[0]), [], {}))
     reg("all")(lambda i, a, k: METHODS["all"](i, asarray(i, a[0]), [], {}))
     reg("isnan")(lambda i, a, k: is_nan(a[0]) if not isinstance(a[0], NdArr) else mk(_map(a[0].data, is_nan), "bool"))
     reg("radians")(lambda i, a, k: i.binop(ast.Mult(), a[0], math.pi / 180))
     reg("allclose")(lambda i, a, k: (_ for _ in ()).throw(Unsupported("np.allclose")))
     for fn in ("arctan2", "arccos", "arctan", "sin", "cos", "linalg.svd", "linalg.inv", "random.rand", "linspace", "meshgrid",
-               "column_stack", "fromiter", "take", "max", "arange"):
+               "column_stack", "take", "max", "arange"):
         E.setdefault(f"numpy.{fn}", Builtin(f"np.{fn}", (lambda name: lambda i, a, k: i.np_hook(name, a, k))(fn), T))
 
     def _frombuffer(i, a, k):
